@@ -125,11 +125,14 @@ namespace rkcommon {
     inline IntrusivePtr<T> &IntrusivePtr<T>::operator=(
         const IntrusivePtr &input)
     {
-      if (input.ptr)
-        input.ptr->refInc();
+      // 'input' may live inside the object released below (e.g. walking a
+      // list with 'node = node->next'): read it before that object can die
+      T *const newPtr = input.ptr;
+      if (newPtr)
+        newPtr->refInc();
       if (ptr)
         ptr->refDec();
-      ptr = input.ptr;
+      ptr = newPtr;
       return *this;
     }
 
